@@ -392,6 +392,73 @@ func extractSchemas(repo, root string) error {
 	if len(msgs) == 0 {
 		return fmt.Errorf("no protocol.Register call found under %s", protoDir)
 	}
+	// types handed to protocol.Marshal by the root package (group metadata / assignments): `x := pkg.T{…}` …
+	// `protocol.Marshal(v, x)`
+	var marshaled []xMsg
+	{
+		fset := token.NewFileSet()
+		rootPkgs, err := parser.ParseDir(fset, repo, func(fi os.FileInfo) bool {
+			return !strings.HasSuffix(fi.Name(), "_test.go") && !strings.HasPrefix(fi.Name(), "verif_")
+		}, 0)
+		if err != nil {
+			return err
+		}
+		seenM := map[string]bool{}
+		if rp, ok := rootPkgs["kafka"]; ok {
+			var fnames []string
+			for n := range rp.Files {
+				fnames = append(fnames, n)
+			}
+			sort.Strings(fnames)
+			for _, fname := range fnames {
+				for _, d := range rp.Files[fname].Decls {
+					fd, ok := d.(*ast.FuncDecl)
+					if !ok || fd.Body == nil {
+						continue
+					}
+					locals := map[string][2]string{}
+					ast.Inspect(fd.Body, func(n ast.Node) bool {
+						switch x := n.(type) {
+						case *ast.AssignStmt:
+							if len(x.Lhs) == 1 && len(x.Rhs) == 1 {
+								if id, ok := x.Lhs[0].(*ast.Ident); ok {
+									if cl, ok := x.Rhs[0].(*ast.CompositeLit); ok {
+										if sel, ok := cl.Type.(*ast.SelectorExpr); ok {
+											if pk, ok := sel.X.(*ast.Ident); ok {
+												locals[id.Name] = [2]string{pk.Name, sel.Sel.Name}
+											}
+										}
+									}
+								}
+							}
+						case *ast.CallExpr:
+							sel, ok := x.Fun.(*ast.SelectorExpr)
+							if !ok || sel.Sel.Name != "Marshal" || len(x.Args) != 2 {
+								return true
+							}
+							if pk, ok := sel.X.(*ast.Ident); !ok || pk.Name != "protocol" {
+								return true
+							}
+							if id, ok := x.Args[1].(*ast.Ident); ok {
+								if t, ok := locals[id.Name]; ok && !seenM[t[0]+"."+t[1]] {
+									seenM[t[0]+"."+t[1]] = true
+									owner, err := c.pkg(t[0])
+									if err != nil {
+										return true
+									}
+									tree, err := c.structTree(owner, t[1])
+									if err == nil {
+										marshaled = append(marshaled, xMsg{pkg: t[0], apiName: "Marshal", apiKey: 0, root: t[1], isReq: true, structs: tree})
+									}
+								}
+							}
+						}
+						return true
+					})
+				}
+			}
+		}
+	}
 	var sb strings.Builder
 	sb.WriteString("-- GENERATED by /verif/go/extract (schemas) from /repo/protocol/*/*.go — do not edit\n")
 	sb.WriteString("import KafkaVerif.Model.Schema\nnamespace KV.Gen\nopen KV.Codec\n\n")
@@ -421,7 +488,31 @@ func extractSchemas(repo, root string) error {
 		}
 		sb.WriteString("] }\n\n")
 	}
-	sb.WriteString("def schemas : List RawMsg := [\n  " + strings.Join(names, ",\n  ") + "]\n\nend KV.Gen\n")
+	sb.WriteString("def schemas : List RawMsg := [\n  " + strings.Join(names, ",\n  ") + "]\n\n")
+	var mnames []string
+	for _, m := range marshaled {
+		dn := fmt.Sprintf("mm_%s_%s", m.pkg, m.root)
+		mnames = append(mnames, dn)
+		fmt.Fprintf(&sb, "def %s : RawMsg := { pkg := %s, apiKey := 0, apiName := \"Marshal\", isRequest := true, override := false, root := %s, structs := [\n",
+			dn, strconv.Quote(m.pkg), strconv.Quote(m.root))
+		for i, st := range m.structs {
+			fmt.Fprintf(&sb, "  { name := %s, fields := [", strconv.Quote(st.name))
+			for j, f := range st.fields {
+				if j > 0 {
+					sb.WriteString(",")
+				}
+				fmt.Fprintf(&sb, "\n    { name := %s, ty := %s, tag := %s, hasTag := %v }", strconv.Quote(f.name), f.ty, strconv.Quote(f.tag), f.hasTag)
+			}
+			sb.WriteString("] }")
+			if i+1 < len(m.structs) {
+				sb.WriteString(",")
+			}
+			sb.WriteString("\n")
+		}
+		sb.WriteString("] }\n\n")
+	}
+	sb.WriteString("/-- types the root package hands to protocol.Marshal / Unmarshal (not registered messages) -/\n")
+	sb.WriteString("def marshaled : List RawMsg := [" + strings.Join(mnames, ", ") + "]\n\nend KV.Gen\n")
 	out := filepath.Join(root, "lean", "KafkaVerif", "Gen", "Schemas.lean")
 	if err := os.WriteFile(out, []byte(sb.String()), 0o644); err != nil {
 		return err
@@ -441,11 +532,21 @@ func extractSchemas(repo, root string) error {
 			}
 		}
 	}
+	for _, m := range marshaled {
+		if !imported[m.pkg] {
+			imported[m.pkg] = true
+			fmt.Fprintf(&gb, "\t%q\n", "github.com/segmentio/kafka-go/protocol/"+m.pkg)
+		}
+	}
 	gb.WriteString(")\n\n// All lists every type passed to protocol.Register / RegisterOverride.\nvar All = []Msg{\n")
 	for _, m := range msgs {
 		pk, name := splitRoot(m)
 		fmt.Fprintf(&gb, "\t{Pkg: %q, Root: %q, ApiKey: %d, IsRequest: %v, Override: %v, New: func() protocol.Message { return &%s.%s{} }},\n",
 			m.pkg, m.root, m.apiKey, m.isReq, m.override, pk, name)
+	}
+	gb.WriteString("}\n\n// Marshaled lists the types the root package hands to protocol.Marshal (same order as Gen.marshaled).\nvar Marshaled = []MarshalType{\n")
+	for _, m := range marshaled {
+		fmt.Fprintf(&gb, "\t{Pkg: %q, Root: %q, New: func() interface{} { return &%s.%s{} }},\n", m.pkg, m.root, m.pkg, m.root)
 	}
 	gb.WriteString("}\n")
 	gdir := filepath.Join(root, "go", "internal", "msgs")
